@@ -441,6 +441,29 @@ func ExploreEpochs(c *core.Ctx, rep Report, light bool) {
 			}
 		})
 	}
+	// a sleeping validator returning with stale knowledge while the first election is split: late multi-frame
+	// roots that decide frames (and cascades of decisions) in the sealed epoch
+	var sleepers []SleeperCfg // thorough only: ~5k DAGs x seal frames
+	if !quick {
+		sleepers = []SleeperCfg{{W: WV(1, 1, 1, 1), Epoch: 1, MinSleep: 2, MaxSleep: 4, Tail: 4, DropInFirstRound: true, Rots: 2},
+			{W: WV(1, 1, 1, 1), Epoch: 1, MinSleep: 3, MaxSleep: 5, Tail: 5, Forks: true, Rots: 1}}
+	}
+	if quick && light {
+		sleepers = nil
+	}
+	for _, sl := range sleepers {
+		GenSleeper(sl, nil, func(d *lref.DAG, desc string) {
+			full, _ := d.Blocks(d.Full(), 0)
+			for s := 1; s <= len(full); s++ {
+				item++
+				if !c.Mine(item) || c.OutOfBudget() {
+					continue
+				}
+				c.Count("sleeper_epoch_scenarios", 1)
+				CheckEpochs(c, d, "epochs: F-sleeper "+desc, s, "reweighted", 3, rep, cfgs[item%len(cfgs)])
+			}
+		})
+	}
 	if c.Capped() {
 		c.Set("exhaustive", false)
 	}
